@@ -1277,6 +1277,12 @@ func (c *Config) validateForward() error {
 			errs = append(errs, fmt.Sprintf("forward.endpoints[%d]: duplicate key %q", i, ep.Key))
 		}
 		seenKeys[ep.Key] = true
+		if len(ep.Key) > maxForwardFieldLength {
+			errs = append(errs, fmt.Sprintf("forward.endpoints[%d]: key is longer than %d bytes", i, maxForwardFieldLength))
+		}
+		if len(ep.Target) > maxForwardFieldLength {
+			errs = append(errs, fmt.Sprintf("forward.endpoints[%d]: target is longer than %d bytes", i, maxForwardFieldLength))
+		}
 
 		if ep.Target == "" {
 			errs = append(errs, fmt.Sprintf("forward.endpoints[%d]: target is required", i))
@@ -1407,6 +1413,12 @@ func isValidCIDR(cidr string) bool {
 }
 
 // isValidDomainPattern validates a domain pattern (exact or *.wildcard).
+// Longest entries a route advertisement can carry (one-byte length fields).
+const (
+	maxDomainNameLength   = 253
+	maxForwardFieldLength = 255
+)
+
 func isValidDomainPattern(pattern string) error {
 	if pattern == "" {
 		return fmt.Errorf("empty domain pattern")
@@ -1445,6 +1457,12 @@ func isValidDomainPattern(pattern string) error {
 	// Must have at least one dot (TLD)
 	if !strings.Contains(baseDomain, ".") {
 		return fmt.Errorf("domain must have at least one dot (e.g., example.com)")
+	}
+
+	// A domain name is at most 253 characters; route advertisements carry the
+	// pattern behind a one-byte length.
+	if len(baseDomain) > maxDomainNameLength {
+		return fmt.Errorf("domain is longer than %d characters", maxDomainNameLength)
 	}
 
 	return nil
